@@ -3,7 +3,7 @@
 From Coq Require Import List NArith ZArith String Bool Lia Arith Permutation.
 From GV Require Import Base.Ints Model.SimpleProofBase Model.BlsTree Monitors.C13Blsm
   Proofs.BlsTreeBase Proofs.BlsTreeAdd Proofs.BlsTreeProof Proofs.BlsTreeMachine Proofs.BlsTreeSparse
-  Proofs.BlsTreeMerge Proofs.BlsTreeRoundtrip Proofs.BlsTreeClosed Proofs.BlsTreeMonBase.
+  Proofs.BlsTreeMerge Proofs.BlsTreeRoundtrip Proofs.BlsTreeClosed Proofs.BlsTreeMonBase Proofs.BlsTreeWitness.
 Import ListNotations.
 Local Open Scope N_scope.
 
@@ -549,4 +549,233 @@ Proof.
     { apply same_bits_eq. intro i. rewrite S5. split; [|auto]. intros [A|(A & _)]; [exact A|discriminate]. }
     rewrite N.eqb_refl. cbn [andb]. rewrite Ab, <- Eb. rewrite bits_ok_model by assumption.
     eexists. split; [reflexivity|]. rewrite Eb. apply R_set; [assumption|]. rewrite <- Eb. exact Hr'.
+Qed.
+
+(* ------------------------------------------------------------------ AsSparse *)
+From Coq Require Import Sorted.
+
+Lemma insert_perm : forall x l, Permutation (x :: l) (insert_N x l).
+Proof.
+  induction l as [|y t IH]; cbn [insert_N]; [reflexivity|]. destruct (x <=? y); [reflexivity|].
+  rewrite perm_swap. now apply perm_skip.
+Qed.
+
+Lemma sort_perm : forall l, Permutation l (sort_N l).
+Proof.
+  induction l as [|x l IH]; cbn; [reflexivity|]. fold (sort_N l).
+  rewrite <- insert_perm. now apply perm_skip.
+Qed.
+
+Lemma insert_sorted : forall x l, StronglySorted N.lt l -> ~ In x l -> StronglySorted N.lt (insert_N x l).
+Proof.
+  induction l as [|y t IH]; intros Hs Hn; cbn [insert_N].
+  - constructor; constructor.
+  - inversion Hs as [|? ? Hs' Hf]; subst. destruct (x <=? y) eqn:E.
+    + apply N.leb_le in E. assert (x < y) by (assert (x <> y) by (intro; subst; apply Hn; left; reflexivity); lia).
+      constructor; [assumption|]. constructor; [assumption|].
+      rewrite Forall_forall in *. intros z Hz. specialize (Hf z Hz). lia.
+    + apply N.leb_gt in E. constructor.
+      * apply IH; [assumption|]. intro C. apply Hn. right. assumption.
+      * rewrite Forall_forall in *. intros z Hz.
+        apply (Permutation_in _ (Permutation_sym (insert_perm x t))) in Hz. destruct Hz as [<-|Hz]; [assumption|auto].
+Qed.
+
+Lemma sort_sorted : forall l, NoDup l -> StronglySorted N.lt (sort_N l).
+Proof.
+  induction l as [|x l IH]; intro Hn; cbn; [constructor|]. fold (sort_N l). inversion Hn; subst.
+  apply insert_sorted; [auto|]. intro C. apply (Permutation_in _ (Permutation_sym (sort_perm l))) in C. contradiction.
+Qed.
+
+Lemma flat_map_ext_in' : forall A B (f g : A -> list B) l, (forall a, In a l -> f a = g a) -> flat_map f l = flat_map g l.
+Proof.
+  induction l as [|a l IH]; intro H; cbn; [reflexivity|]. rewrite (H a (or_introl eq_refl)). f_equal.
+  apply IH. intros b Hb. apply H. right. assumption.
+Qed.
+
+Lemma lor_double_double : forall a b, N.lor (N.double a) (N.double b) = N.double (N.lor a b).
+Proof. destruct a, b; reflexivity. Qed.
+Lemma lor_double_sdouble : forall a b, N.lor (N.double a) (N.succ_double b) = N.succ_double (N.lor a b).
+Proof. destruct a, b; reflexivity. Qed.
+Lemma lor_sdouble_double : forall a b, N.lor (N.succ_double a) (N.double b) = N.succ_double (N.lor a b).
+Proof. destruct a, b; reflexivity. Qed.
+
+Lemma popcount_lor_disjoint : forall a b,
+  (forall i, N.testbit a i = true -> N.testbit b i = true -> False) ->
+  popcount (N.lor a b) = popcount a + popcount b.
+Proof.
+  induction a using N.binary_ind; intros b H.
+  - cbn. lia.
+  - destruct (binary_cases b) as [b' [-> | ->]].
+    + rewrite lor_double_double, !pc_double. apply IHa. intros i A B. apply (H (N.succ i)); rewrite tb_double_S; assumption.
+    + rewrite lor_double_sdouble, pc_double, !pc_succ_double. rewrite IHa; [lia|].
+      intros i A B. apply (H (N.succ i)); [rewrite tb_double_S|rewrite tb_sdouble_S]; assumption.
+  - destruct (binary_cases b) as [b' [-> | ->]].
+    + rewrite lor_sdouble_double, pc_double, !pc_succ_double. rewrite IHa; [lia|].
+      intros i A B. apply (H (N.succ i)); [rewrite tb_sdouble_S|rewrite tb_double_S]; assumption.
+    + exfalso. apply (H 0); apply tb_sdouble_0.
+Qed.
+
+Section Pairs.
+  Variable n : N.
+  Definition mk (id : N) : N := mask_of (leaves_under n id).
+
+  Lemma pairs_ok : forall L prev acc cnt,
+    StronglySorted N.lt L ->
+    (forall id, In id L -> id < n_nodes n /\ mk id <> 0) ->
+    match prev with None => True | Some q => Forall (N.lt q) L end ->
+    sparse_pairs_ok n (flat_map (fun id => [id; 1]) L) prev acc cnt =
+    Some (fold_left (fun a id => N.lor a (mk id)) L acc, fold_left (fun c id => c + popcount (mk id)) L cnt).
+  Proof.
+    induction L as [|x L IH]; intros prev acc cnt Hs Hp Hprev; [reflexivity|].
+    cbn [flat_map app sparse_pairs_ok fold_left]. fold (mk x).
+    inversion Hs as [|? ? Hs' Hf]; subst.
+    destruct (Hp x (or_introl eq_refl)) as [P1 P2].
+    replace (x <? n_nodes n) with true by (symmetry; apply N.ltb_lt; assumption).
+    replace (mk x =? 0) with false by (symmetry; apply N.eqb_neq; assumption).
+    replace (match prev with Some q => q <? x | None => true end) with true.
+    2:{ destruct prev as [q|]; [|reflexivity]. symmetry. apply N.ltb_lt. inversion Hprev; assumption. }
+    cbn [N.eqb Pos.eqb andb negb]. apply IH; [assumption| |assumption].
+    intros id Hid. apply Hp. right. assumption.
+  Qed.
+
+  Lemma fold_lor_spec : forall L acc i,
+    N.testbit (fold_left (fun a id => N.lor a (mk id)) L acc) i = true <->
+    N.testbit acc i = true \/ exists id, In id L /\ N.testbit (mk id) i = true.
+  Proof.
+    induction L as [|x L IH]; intros acc i; cbn [fold_left].
+    - split; [auto|]. intros [A|(id & [] & _)]. exact A.
+    - rewrite IH, N.lor_spec, orb_true_iff. split.
+      + intros [[A|A]|(id & B & C)]; [auto| |].
+        * right. exists x. split; [left; reflexivity|assumption].
+        * right. exists id. split; [right; assumption|assumption].
+      + intros [A|(id & [B|B] & C)]; [auto| |].
+        * subst id. auto.
+        * right. exists id. auto.
+  Qed.
+
+  Lemma fold_count : forall L acc cnt, NoDup L ->
+    (forall x y i, In x L -> In y L -> N.testbit (mk x) i = true -> N.testbit (mk y) i = true -> x = y) ->
+    (forall x i, In x L -> N.testbit acc i = true -> N.testbit (mk x) i = true -> False) ->
+    cnt = popcount acc ->
+    fold_left (fun c id => c + popcount (mk id)) L cnt = popcount (fold_left (fun a id => N.lor a (mk id)) L acc).
+  Proof.
+    induction L as [|x L IH]; intros acc cnt Hn Hd Ha Hc; cbn [fold_left]; [assumption|].
+    inversion Hn; subst. apply IH; [assumption| | |].
+    - intros a b i A B. apply Hd; right; assumption.
+    - intros y i Hy Hl Hm. rewrite N.lor_spec, orb_true_iff in Hl. destruct Hl as [Hl|Hl].
+      + apply (Ha y i); [right; assumption|assumption|assumption].
+      + assert (x = y) by (apply (Hd x y i); [left; reflexivity|right; assumption|assumption|assumption]).
+        subst y. contradiction.
+    - rewrite popcount_lor_disjoint; [reflexivity|]. intros i A B. apply (Ha x i); [left; reflexivity|assumption|assumption].
+  Qed.
+End Pairs.
+
+Lemma sorted_nodup : forall L, StronglySorted N.lt L -> NoDup L.
+Proof.
+  induction L as [|x L IH]; intro H; [constructor|]. inversion H as [|? ? Hs Hf]; subst. constructor; [|auto].
+  intro C. rewrite Forall_forall in Hf. specialize (Hf x C). lia.
+Qed.
+
+Lemma sim_sparse : forall rs ms r, R rs ms -> sim rs ms (BSparse r).
+Proof.
+  intros rs ms r H. unfold sim. cbn [step mon_step].
+  destruct (R_get rs ms r H) as [(p & m & E1 & E2 & Hr)|(E1 & E2)]; rewrite E1, E2;
+    [|cbn [fst snd]; rewrite obs_eqb_refl; eauto].
+  cbn [fst snd]. pose proof Hr as ((Hp & Hn) & An & Am & Ah & Ab). destruct Hp as [h Hinv]. pose proof Hinv as (Hwf & Hgen & _).
+  destruct (sparse_indices_spec (p_msg p) h (p_tree p) Hinv) as (ids & Es & Hnd & Hin).
+  unfold obs_sparse. rewrite (as_sparse_eq p ids Es).
+  set (ents := map (sparse_entry_of p) ids).
+  (* what each listed id looks like *)
+  assert (Hid : forall id, In id ids ->
+            id < 2 * p2 h - 1 /\ id_of_bytes (fst (sparse_entry_of p id)) = id /\
+            exists ks, nthN (t_keys (p_tree p)) id = Some (Some ks) /\ ks <> [] /\
+                       snd (sparse_entry_of p id) = SAgg (p_msg p) ks).
+  { intros id Hi. destruct (max_sig h p id Hinv (proj1 (Hin id) Hi)) as (ks & A & B & C & D).
+    split; [assumption|]. split; [|eauto]. unfold sparse_entry_of. cbn [fst].
+    apply (node_ids_fit (t_n (p_tree p))); [pose proof (wf_n1 _ _ Hwf); lia|]. rewrite (wf_lw _ _ Hwf). exact A. }
+  assert (Emap : map (fun e : sparse_entry => id_of_bytes (fst e)) ents = ids).
+  { unfold ents. rewrite map_map. rewrite <- (map_id ids) at 2. apply map_ext_in. intros id Hi. apply (Hid id Hi). }
+  rewrite Emap.
+  set (L := sort_N ids).
+  assert (HL : forall id, In id L <-> In id ids).
+  { intro id. split; intro X; [apply (Permutation_in _ (Permutation_sym (sort_perm ids)))|apply (Permutation_in _ (sort_perm ids))]; exact X. }
+  assert (Hs : StronglySorted N.lt L) by (apply sort_sorted; assumption).
+  (* every listed signature verifies *)
+  assert (Eobs : flat_map (fun id =>
+            [id; b2n (existsb (fun e : sparse_entry => N.eqb (id_of_bytes (fst e)) id &&
+                         verify (fst (fst (tree_get (p_tree p) id))) (p_msg p) (snd e)) ents)]) L =
+                 flat_map (fun id => [id; 1]) L).
+  { apply flat_map_ext_in'. intros id Hi. apply HL in Hi. f_equal. f_equal.
+    replace (existsb _ ents) with true; [reflexivity|]. symmetry. apply existsb_exists.
+    exists (sparse_entry_of p id). split; [unfold ents; apply in_map; assumption|].
+    destruct (Hid id Hi) as (A & B & ks & C & D & F). rewrite B, N.eqb_refl, F. cbn [andb].
+    destruct (tree_get_spec h (p_tree p) id Hwf) as [(_ & k & s & X & Y & Z)|(Hge & _)]; [|lia].
+    rewrite Z. cbn [fst]. rewrite C in X. inversion X; subst k. apply verify_true. exists ks. auto. }
+  rewrite Eobs.
+  assert (Hnn : n_nodes (m_n m) = 2 * p2 h - 1) by (rewrite An; apply (n_nodes_wf h _ Hwf); lia).
+  assert (Hmk : forall id, In id L -> mk (m_n m) id = mask_of (leaves_of (t_keys (p_tree p)) id)).
+  { intros id Hi. apply HL in Hi. unfold mk. rewrite An. f_equal.
+    apply (leaves_under_idx h (p_tree p) id Hwf ltac:(lia)). rewrite (n_nodes_wf h _ Hwf) by lia. apply (Hid id Hi). }
+  rewrite (pairs_ok (m_n m) L None 0 0 Hs); [| |exact I].
+  2:{ intros id Hi. split.
+      - rewrite Hnn. apply (Hid id (proj1 (HL id) Hi)).
+      - rewrite (Hmk id Hi). destruct (Hid id (proj1 (HL id) Hi)) as (_ & _ & ks & C & D & _).
+        unfold leaves_of. rewrite C. intro Z. apply mask_of_zero in Z. contradiction. }
+  assert (Eacc : fold_left (fun a id => N.lor a (mk (m_n m) id)) L 0 = p_bits p).
+  { apply same_bits_eq. intro i. rewrite fold_lor_spec, N.bits_0.
+    unfold p_bits. rewrite (sparse_cover (p_msg p) h (p_tree p) ids Hinv Es i). split.
+    - intros [A|(id & Hi & T)]; [discriminate|]. exists id. split; [apply HL; assumption|].
+      rewrite (Hmk id Hi) in T. now apply mask_of_spec in T.
+    - intros (id & Hi & T). right. exists id. apply HL in Hi. split; [assumption|]. rewrite (Hmk id Hi). now apply mask_of_spec. }
+  rewrite (fold_count (m_n m) L 0 0 (sorted_nodup L Hs)); [| | |reflexivity].
+  - rewrite Eacc, Ab, !N.eqb_refl. cbn. eauto.
+  - intros x y i Hx Hy Tx Ty. rewrite (Hmk x Hx) in Tx. rewrite (Hmk y Hy) in Ty.
+    apply mask_of_spec in Tx. apply mask_of_spec in Ty.
+    apply (sparse_disjoint (p_msg p) h (p_tree p) ids Hinv Es x y i); auto; apply HL; assumption.
+  - intros x i _ T. rewrite N.bits_0 in T. discriminate.
+Qed.
+
+(* ------------------------------------------------------------------ all operation sequences *)
+(** the monitor expects the sparse round trip to succeed, which needs node ids that fit two bytes *)
+Definition op_small (o : bop) : Prop :=
+  match o with BNew _ n _ _ => n <= 32768 \/ 65535 < n | _ => True end.
+
+Lemma step_sim : forall rs ms o, R rs ms -> op_small o -> sim rs ms o.
+Proof.
+  intros rs ms o H Hs. destruct o.
+  - apply sim_new; assumption.
+  - apply sim_add; assumption.
+  - apply sim_merge; assumption.
+  - apply sim_merge_sparse; assumption.
+  - apply sim_merge_from; assumption.
+  - apply sim_has; assumption.
+  - apply sim_sparse; assumption.
+  - apply sim_clone; assumption.
+  - apply sim_derive; assumption.
+  - apply sim_bits; assumption.
+Qed.
+
+Lemma mon_from_model : forall ops rs ms i, R rs ms -> Forall op_small ops ->
+  mon_from ms ops (run_from rs ops) i = None.
+Proof.
+  induction ops as [|o ops IH]; intros rs ms i H Hs; [reflexivity|].
+  inversion Hs as [|? ? Ho Hrest]; subst.
+  destruct (step_sim rs ms o H Ho) as (ms' & M1 & M2).
+  cbn [run_from]. destruct (step rs o) as [rs' ob] eqn:Est. cbn [fst snd] in M1, M2.
+  cbn [mon_from]. rewrite M1. apply IH; assumption.
+Qed.
+
+Lemma R_nil : R [] [].
+Proof. intro r. cbn. exact I. Qed.
+
+(** model_satisfies_monitor: the monitor accepts the model's own run of ANY operation sequence over key sets of
+    at most 32768 keys (or rejected by the constructor). *)
+Theorem model_satisfies_monitor : forall ops, Forall op_small ops -> c13bls_mon ops (run ops) = None.
+Proof. intros ops H. unfold c13bls_mon, run. apply mon_from_model; [exact R_nil|exact H]. Qed.
+
+(** the guard is needed: with 32769 keys the monitor rejects the model's (and the real code's) sparse round trip *)
+Theorem model_satisfies_monitor_guard_needed :
+  exists ops, c13bls_mon ops (run ops) <> None.
+Proof.
+  exists (BlsTreeWitness.big_ops ++ [BDerive 0 1; BMergeFrom 1 0]). vm_compute. discriminate.
 Qed.
